@@ -101,13 +101,23 @@ def renew (g : Nat) : Nat → List (Nat × Sink) → List (Nat × Sink)
   | _, [] => []
   | sid, (n, _) :: r => (n, { sid := sid, gen := g }) :: renew g (sid + 1) r
 
+def insertSlot (p : Nat × Sink) : List (Nat × Sink) → List (Nat × Sink)
+  | [] => [p]
+  | q :: r => if p.1 ≤ q.1 then p :: q :: r else q :: insertSlot p r
+
+/-- the slot array is walked in index order -/
+def sortSlots : List (Nat × Sink) → List (Nat × Sink)
+  | [] => []
+  | p :: r => insertSlot p (sortSlots r)
+
 /-- `reload` under the write lock: close every sink in place, shut the old downstream down, start the
-new one, re-create a sink for every occupied slot -/
+new one, re-create a sink for every occupied slot (in client-number order) -/
 def reloadStep (s : St) : St :=
-  let closes := s.slots.map (fun p => Ev.close p.2.sid)
+  let sorted := sortSlots s.slots
+  let closes := sorted.map (fun p => Ev.close p.2.sid)
   let staleBad := (s.slots.filter (fun p => p.2.gen ∈ s.shut)).map (fun _ => "Close on a sink of a downstream that was shut down")
   let g := s.gen + 1
-  let slots' := renew g s.nextSid s.slots
+  let slots' := renew g s.nextSid sorted
   { s with shut := s.shut ++ [s.gen], gen := g, slots := slots', nextSid := s.nextSid + s.slots.length,
            bad := s.bad ++ staleBad,
            hist := s.hist ++ closes ++ [.shutdown s.gen, .started g] ++ slots'.map (fun p => Ev.newSink p.2.sid g p.1) }
